@@ -5,6 +5,7 @@ import (
 	"go/constant"
 	"go/token"
 	"go/types"
+	"sort"
 	"strings"
 
 	"golang.org/x/tools/go/ssa"
@@ -34,7 +35,9 @@ func ruleExhaustiveWalks(c *Ctx, rule string, funcKeys []string, why string) {
 					BlockEdge: func(b *ssa.BasicBlock, succ int) bool { return b == hb && succ == 1 },
 					Target: func(in ssa.Instruction) bool {
 						if _, isRet := in.(*ssa.Return); isRet {
-							return false
+							// a walk that returns nothing has no reason to stop: returning from inside the loop skips
+							// the remaining children just like a break
+							return f.Signature.Results().Len() == 0
 						}
 						// an instruction outside the loop: its block is not dominated by the loop body... approximate:
 						// reachable only after leaving through the header; with that edge blocked, reaching the
@@ -42,7 +45,7 @@ func ruleExhaustiveWalks(c *Ctx, rule string, funcKeys []string, why string) {
 						return in.Block() == hb.Succs[1] || exitDominated(hb.Succs[1], in.Block())
 					},
 				}).Search(an.After(e))
-				o := c.R.Add(rule, k, "range("+an.AP(l.slice)+")/no-early-exit", c.pos(e), path == nil, ifelse(path == nil, "every child is visited: the loop is left only through its header", "the walk over the children can stop early (break): later children are not visited"))
+				o := c.R.Add(rule, k, "range("+an.AP(l.slice)+")/no-early-exit", c.pos(e), path == nil, ifelse(path == nil, "every child is visited: the loop is left only through its header", "the walk over the children can stop early (break or return inside the loop): later children are not visited"))
 				if path != nil {
 					o.Path = c.P.PathString(path)
 				}
@@ -487,6 +490,14 @@ func ruleSummaryIsNotLiveness(c *Ctx, rule string) {
 				k, ok := v.(*ssa.Const)
 				return ok && k.Value != nil && k.Value.Kind() == constant.Int && k.Int64() == 0
 			}
+			isMasked := func(v ssa.Value) bool {
+				m, ok := v.(*ssa.BinOp)
+				return ok && (m.Op == token.AND || m.Op == token.AND_NOT || m.Op == token.SHR) && (isSummary(m.X) || isSummary(m.Y))
+			}
+			if isMasked(bo.X) || isMasked(bo.Y) {
+				c.R.Add(rule, c.fk(f), "summary-bit-tested", c.pos(in), false, "a bit of the method summary is tested to decide whether a node is live: the summary of a node whose handlers were all removed is not rebuilt on every path (and carries TRACE when configured), so a removed pattern is treated as registered")
+				return
+			}
 			if (isSummary(bo.X) && isZero(bo.Y)) || (isSummary(bo.Y) && isZero(bo.X)) {
 				c.R.Add(rule, c.fk(f), "summary-compared-with-zero", c.pos(in), false, "the method summary is compared with zero to decide whether a node is live: with a TRACE handler configured it is non-zero for a node whose handlers were all removed, so a removed pattern is treated as registered")
 			}
@@ -505,4 +516,213 @@ func ruleLocksSurviveRecovery(c *Ctx, rule string) {
 			c.R.Add(rule, o.Func, o.Construct, o.At, o.OK, o.Msg)
 		}
 	}
+}
+
+
+// ruleCleanTestsEveryChild: node.clean removes exactly the children whose text starts with the prefix — the test
+// `HasPrefix(child text, prefix)` that decides the removal is evaluated for every child of the loop it sits in
+// (a child that was descended into is still tested: the prefix can equal the child's text exactly).
+func ruleCleanTestsEveryChild(c *Ctx, rule string) {
+	a := c.A
+	c.R.Rule(c.R.Property+"."+rule, 1, "Clean removes exactly the routes whose pattern starts with the prefix: every child is tested against the prefix")
+	f := c.P.Func(a.TreePkg.Name() + ".(*" + a.NodeT.Obj().Name() + ").clean")
+	if f == nil {
+		// role: the node method with one string parameter that Tree.Clean calls
+		an.AllInstrs(a.TreeClean, func(in ssa.Instruction) {
+			if call := an.CallOf(in); call != nil {
+				if g := an.StaticCallee(call); g != nil && g.Signature.Recv() != nil && isPtrToNamed(g.Signature.Recv().Type(), a.NodeT) && g.Signature.Params().Len() == 1 {
+					f = g
+				}
+			}
+		})
+	}
+	if f == nil {
+		c.R.Add(rule, c.fk(a.TreeClean), "clean-walk", c.P.Pos(a.TreeClean.Pos()), false, "Tree.Clean no longer hands the prefix to a walk over the nodes")
+		return
+	}
+	var prefix *ssa.Parameter
+	for _, p := range f.Params {
+		if b, ok := p.Type().Underlying().(*types.Basic); ok && b.Kind() == types.String {
+			prefix = p
+		}
+	}
+	if prefix == nil {
+		an.Fatalf("UNRESOLVED anchor: prefix parameter of %s", c.fk(f))
+	}
+	isPrefixVal := func(v ssa.Value) bool { return an.AP(v) == an.AP(prefix) || an.AP(v) == "free:"+prefix.Name() }
+	// the deciding tests: HasPrefix(<child text>, prefix) anywhere in clean or its closures
+	isTest := func(in ssa.Instruction) bool {
+		call, ok := calleeNamed(in, "strings.HasPrefix")
+		return ok && isPrefixVal(call.Args[1]) && strings.Contains(an.AP(call.Args[0]), "."+a.FSegment+".")
+	}
+	total := 0
+	fns := append([]*ssa.Function{f}, f.AnonFuncs...)
+	for _, g := range fns {
+		an.AllInstrs(g, func(in ssa.Instruction) {
+			if isTest(in) {
+				total++
+			}
+		})
+	}
+	if total == 0 {
+		c.R.Add(rule, c.fk(f), "prefix-test", c.P.Pos(f.Pos()), false, "no child is compared with the prefix (strings.HasPrefix(child text, prefix)): Clean(prefix) cannot select the routes under the prefix")
+		return
+	}
+	n := 0
+	for _, l := range rangeLoops(f) {
+		if _, isCh := fieldLoadOf(l.slice, a.NodeT, a.FChildren); !isCh {
+			continue
+		}
+		inLoop := false
+		hb := l.hdr.Block()
+		an.AllInstrs(f, func(in ssa.Instruction) {
+			if isTest(in) && hb.Dominates(in.Block()) && in.Block() != hb.Succs[1] && !hb.Succs[1].Dominates(in.Block()) {
+				inLoop = true
+			}
+		})
+		if !inLoop {
+			continue
+		}
+		for _, e := range l.elems {
+			n++
+			path := (&an.Query{
+				Block: func(in ssa.Instruction) bool { return isTest(in) },
+				BlockEdge: func(b *ssa.BasicBlock, succ int) bool {
+					// edges on which the test is known to be false: len(child text) < len(prefix)
+					cond, onTrue := an.EdgeCond(b, succ)
+					if bo, ok := cond.(*ssa.BinOp); ok && onTrue && bo.Op == token.LSS {
+						lx, okx := bo.X.(*ssa.Call)
+						ly, oky := bo.Y.(*ssa.Call)
+						if okx && oky {
+							if cx, ok := builtinCall(lx, "len"); ok {
+								if cy, ok := builtinCall(ly, "len"); ok && isPrefixVal(cy.Args[0]) && strings.Contains(an.AP(cx.Args[0]), "."+a.FSegment+".") {
+									return true
+								}
+							}
+						}
+					}
+					return false
+				},
+				Target: func(in ssa.Instruction) bool {
+					if in.Block() == hb && in == hb.Instrs[0] {
+						return true // next iteration
+					}
+					_, isRet := in.(*ssa.Return)
+					return isRet
+				},
+			}).Search(an.After(e))
+			o := c.R.Add(rule, c.fk(f), "range("+an.AP(l.slice)+")/every-child-tested", c.pos(e), path == nil, ifelse(path == nil, "every child passes the removal test", "a child can go through the loop body without being tested against the prefix (for instance after being descended into): when the prefix equals its text exactly it is kept although its pattern starts with the prefix"))
+			if path != nil {
+				o.Path = c.P.PathString(path)
+			}
+		}
+	}
+	if n == 0 {
+		c.R.Add(rule, c.fk(f), "removal-predicate", c.P.Pos(f.Pos()), true, "the removal test is a predicate applied to every element (slices.DeleteFunc or equivalent)")
+	}
+}
+
+// ruleSearchTriesEverySibling: the recursive searches over the tree (find, checkAmbiguous, matchChildren, …) leave
+// the loop over a node's children early only with a positive result. A `return` inside the loop whose every nil-able
+// result may be nil (typically `return child.search(rest)` instead of `if r := child.search(rest); r != nil { return r }`)
+// gives up the remaining siblings: a live route is reported as missing.
+func ruleSearchTriesEverySibling(c *Ctx, rule string, roots []*ssa.Function, why string) {
+	a := c.A
+	c.R.Rule(c.R.Property+"."+rule, 1, why)
+	g := an.NewGraph(c.P)
+	reach := g.Reach(roots, func(_ *ssa.Function, e an.Edge) bool { return e.Kind != "invoke" })
+	var fs []*ssa.Function
+	for f := range reach {
+		if an.IsLibrary(f) && f.Signature.Results().Len() > 0 && len(f.Blocks) > 0 {
+			fs = append(fs, f)
+		}
+	}
+	sort.Slice(fs, func(i, j int) bool { return an.FuncKey(fs[i]) < an.FuncKey(fs[j]) })
+	nilable := func(t types.Type) bool {
+		switch t.Underlying().(type) {
+		case *types.Pointer, *types.Interface, *types.Map, *types.Slice, *types.Signature:
+			return true
+		}
+		return false
+	}
+	n := 0
+	for _, f := range fs {
+		// recursive?
+		rec := false
+		for h := range g.Reach([]*ssa.Function{f}, func(_ *ssa.Function, e an.Edge) bool { return e.Kind != "invoke" }) {
+			an.AllInstrs(h, func(in ssa.Instruction) {
+				if call := an.CallOf(in); call != nil && an.StaticCallee(call) == f {
+					rec = true
+				}
+			})
+		}
+		if !rec {
+			continue
+		}
+		for _, l := range rangeLoops(f) {
+			if _, isCh := fieldLoadOf(l.slice, a.NodeT, a.FChildren); !isCh {
+				continue
+			}
+			hb := l.hdr.Block()
+			body, exit := hb.Succs[0], hb.Succs[1]
+			elemAPs := map[string]bool{}
+			for _, e := range l.elems {
+				if v, ok := e.(ssa.Value); ok {
+					elemAPs[an.AP(v)] = true
+				}
+			}
+			for _, r := range an.Returns(f) {
+				if !body.Dominates(r.Block()) || exit.Dominates(r.Block()) {
+					continue
+				}
+				positive := ""
+				any := false
+				for i := range r.Results {
+					v := an.ReturnValue(r, i)
+					if !nilable(v.Type()) {
+						continue
+					}
+					any = true
+					switch {
+					case !mayBeNilValue(v):
+						positive = "result " + fmt.Sprint(i) + " is never nil"
+					case elemAPs[an.AP(v)]:
+						positive = "the child itself"
+					case an.DominatedByEdge(r, func(b *ssa.BasicBlock, succ int) bool {
+						cond, onTrue := an.EdgeCond(b, succ)
+						if cond == nil {
+							return false
+						}
+						x, k, eq, ok := an.CondAtom(cond)
+						return ok && k.Value == nil && an.AP(x) == an.AP(v) && eq != onTrue
+					}):
+						positive = "behind " + an.AP(v) + " != nil"
+					}
+				}
+				if !any {
+					continue
+				}
+				n++
+				c.R.Add(rule, c.fk(f), "range("+an.AP(l.slice)+")/return-only-when-found", c.pos(r), positive != "", ifelse(positive != "", "the loop is left with a result ("+positive+")", "the search returns from inside the loop over the children with a result that may be empty: the remaining siblings are never tried, so a route that lives under a later sibling is not found"))
+			}
+		}
+	}
+	if n == 0 {
+		c.R.Add(rule, "module", "no-recursive-search-below:"+c.fk(roots[0]), "-", true, "no recursive search with an early return below the entry point")
+	}
+}
+
+func mayBeNilValue(v ssa.Value) bool {
+	switch x := v.(type) {
+	case *ssa.Const:
+		return x.Value == nil
+	case *ssa.MakeInterface, *ssa.Alloc, *ssa.MakeMap, *ssa.MakeSlice, *ssa.MakeClosure, *ssa.Function:
+		return false
+	case *ssa.Call:
+		switch an.CalleeName(&x.Call) {
+		case "fmt.Errorf", "errors.New":
+			return false
+		}
+	}
+	return true
 }
